@@ -153,7 +153,7 @@ def run(ctx):
 
     def ends_pool(frame):
         b, c = ("bv", 0), ("bv", 1)
-        ends = T.call("numpy.array", (("map", T.seq((T.idx(c, T.num(0)), T.idx(c, T.num(-1)))), c, T.attr(frame, "big_edges_list"), T.TRUE),))
+        ends = ("map", T.seq((T.idx(c, T.num(0)), T.idx(c, T.num(-1)))), c, T.attr(frame, "big_edges_list"), T.TRUE)
         return T.call("dict", (("map", T.seq((T.idx(b, T.num(0)), T.idx(b, T.num(1)))), b, T.call(("m", "items"), (T.attr(frame, "vertices"),)),
                                 ("in", T.idx(b, T.num(0)), T.call(("m", "flatten"), (ends,)))),))
     if 0 in pools:
